@@ -472,5 +472,8 @@ func c04gen(c *h.Ctx, yield func(*h.Case)) {
 }
 
 func init() {
-	h.RegisterProp(h.Prop{Name: "c04", Gen: c04gen, Exec: c04exec})
+	// sub-processes running batches of cases (common_batch.go): a panic of the code under test in one of its own
+	// goroutines (the reader of an instance) is the observation `crash` of the case that was running, not the end of
+	// the harness ("0 cases")
+	registerBatched(h.Prop{Name: "c04", Gen: c04gen, Exec: c04exec, Workers: 8, Timeout: 60 * time.Second}, 20)
 }
